@@ -307,6 +307,18 @@ def get_ast_term(t):
     def get_priority(t):
         return get_priority_pair(t)[0]
 
+    def get_bound_name(nm):
+        """Name used to print a bound variable with suggested name nm: avoid
+        the variables of t, the enclosing bound variables, and the constants
+        of the theory (the parser reads the name of a constant as that
+        constant)."""
+        i = 0
+        res = nm
+        while res in var_names or theory.thy.has_term_sig(res):
+            i += 1
+            res = nm + str(i)
+        return res
+
     def helper(t, bd_vars):
         """Main recursive function. Here bd_vars is the list of bound
         variables (represented by a list of AST Bound objects).
@@ -353,7 +365,7 @@ def get_ast_term(t):
             return Interval(helper(t.arg1, bd_vars), helper(t.arg, bd_vars), t.get_type())
 
         elif t.is_comb('collect', 1) and t.arg.is_abs():
-            nm = name.get_variant_name(t.arg.var_name, var_names)
+            nm = get_bound_name(t.arg.var_name)
             var_names.append(nm)
 
             bind_var = Bound(nm, t.arg.var_T)
@@ -433,7 +445,7 @@ def get_ast_term(t):
                 binder_str = binder_data.unicode_op if settings.unicode else binder_data.ascii_op
                 op_ast = Binder(binder_str)
 
-                nm = name.get_variant_name(t.arg.var_name, var_names)
+                nm = get_bound_name(t.arg.var_name)
                 var_names.append(nm)
 
                 bind_var = Bound(nm, t.arg.var_T)
@@ -467,7 +479,7 @@ def get_ast_term(t):
         elif t.is_abs():
             op_ast = Binder("λ") if settings.unicode else Binder("%")
 
-            nm = name.get_variant_name(t.var_name, var_names)
+            nm = get_bound_name(t.var_name)
             var_names.append(nm)
 
             bind_var = Bound(nm, t.var_T)
